@@ -1,6 +1,9 @@
 package main
 
-import "fmt"
+import (
+	"fmt"
+	"sort"
+)
 
 func (h *hist) userAllocCount() int {
 	n := 0
@@ -128,4 +131,86 @@ func (h *hist) checkOutcome(before map[int]slotSnap, ds []int) {
 	}
 	h.expect.AllocationsMoved += copies
 	h.expect.BytesMoved += copyBytes
+}
+
+func (h *hist) liveTemps() int {
+	n := 0
+	for _, a := range h.w.slots {
+		if a.live && a.temp {
+			n++
+		}
+	}
+	return n
+}
+
+// checkRefusals: a commit the block list refused leaves nothing behind - the pass created exactly one
+// temporary per proposed move, the blocks hold exactly one taken region per live allocation object
+// (no reserved range without an owner), and every refused attempt named a block of the list.
+func (h *hist) checkRefusals(tempsBefore int) {
+	w := h.w
+	if got := h.liveTemps() - tempsBefore; got != len(h.pending) {
+		h.fail("C07", "refused-commit-left-temporary", fmt.Sprintf("%d new temporaries, %d moves proposed, %d commits refused", got, len(h.pending), len(w.refusals)))
+	}
+	taken := 0
+	for _, b := range w.blocks {
+		taken += b.md.AllocationCount()
+	}
+	if live := len(h.liveSlots()); taken != live {
+		h.fail("C07", "refused-commit-left-range", fmt.Sprintf("%d taken regions in the blocks, %d live allocation objects, %d commits refused", taken, live, len(w.refusals)))
+	}
+	for _, rf := range w.refusals {
+		if _, b := w.blockByID(rf.dstBlk); b == nil || rf.src < 0 || rf.src >= len(w.slots) || !w.slots[rf.src].live || w.slots[rf.src].temp {
+			h.fail("C07", "refused-commit-unknown", fmt.Sprintf("attempt %d: source slot %d, destination block %d", rf.k, rf.src, rf.dstBlk))
+		}
+	}
+}
+
+// conflictKinds: the Vulkan buffer-image-granularity rule as vam documents it (independent statement)
+func conflictKinds(a, b uint32) bool {
+	if a > b {
+		a, b = b, a
+	}
+	switch a {
+	case 0:
+		return false
+	case 1:
+		return true
+	case 2:
+		return b == 3 || b == 5
+	case 3:
+		return b == 3 || b == 4 || b == 5
+	case 4:
+		return b == 5
+	}
+	return false
+}
+
+// checkPages (C09 on the planner's block list): with vam's handler no bufferImageGranularity page
+// holds bytes of two live allocations of conflicting kinds - users' or the planner's temporaries
+func (h *hist) checkPages() {
+	if h.c.handler != "vam" || h.c.gran <= 1 {
+		return
+	}
+	g := h.c.gran
+	for _, b := range h.w.blocks {
+		var as []*alloc
+		for _, a := range h.w.slots {
+			if a.live && a.blk == b && a.kind >= 1 && a.kind <= 5 {
+				as = append(as, a)
+			}
+		}
+		sort.Slice(as, func(i, j int) bool { return as[i].offset() < as[j].offset() })
+		for i := 0; i < len(as); i++ {
+			iEnd := as[i].offset() + as[i].size
+			for j := i + 1; j < len(as); j++ {
+				if as[j].offset()/g > (iEnd-1)/g {
+					break
+				}
+				if conflictKinds(as[i].kind, as[j].kind) {
+					h.fail("C09", "page-shared", fmt.Sprintf("block %d: slot %d kind %d [%d,%d) and slot %d kind %d [%d,%d) share a page of %d",
+						b.id, as[i].slot, as[i].kind, as[i].offset(), iEnd, as[j].slot, as[j].kind, as[j].offset(), as[j].offset()+as[j].size, g))
+				}
+			}
+		}
+	}
 }
